@@ -26,6 +26,8 @@ MInit ==
    stop |-> FALSE,              \* a server close frame was seen or the application called close(): no more attempts
    appClose |-> FALSE, appCloseT |-> 0,
    lossT |-> -1,                \* time of the last abnormal loss / failed attempt (-2: time not observable)
+   jitter |-> 0,                \* scenario's bound on how late a thread may come back from a write (ms)
+   log |-> <<>>,                \* what the application saw, in order: <<callback, time>>, <<"dial", outcome, time>>, <<"ret", value>>
    kbint |-> FALSE, ret |-> "none", retVal |-> FALSE, lossSeen |-> FALSE, horizon |-> FALSE]
 
 MRes(s, ok, why) == [s |-> s, ok |-> ok, why |-> why]
@@ -37,9 +39,10 @@ Cur(s) == Len(s.conns)           \* index (cid + 1) of the latest connection
 MBegin(s, e) ==
   MRes([MInit EXCEPT !.run = e.run, !.active = TRUE, !.I = e.interval, !.T = e.timeout, !.R = e.reconnect,
                     !.cbs = {e.cbs[i] : i \in 1..Len(e.cbs)}, !.ext = (e.dispatcher = "ext"), !.payload = e.payload,
+                    !.jitter = e.jitter,
                     !.refuse = (e.timeoutGiven /\ e.timeout <= 0) \/ e.interval < 0
                                \/ (e.timeout > 0 /\ e.interval > 0 /\ e.interval <= e.timeout),
-                    !.conns = s.conns, !.firstCid = Len(s.conns) + 1], TRUE, "")
+                    !.conns = s.conns, !.firstCid = Len(s.conns) + 1, !.log = s.log], TRUE, "")
 
 (* ---- connection attempts ------------------------------------------------ *)
 MDial(s, e) ==
@@ -156,8 +159,8 @@ MPingSent(s, e) ==
   IF s.I = 0 THEN MFail(s, "C16.ping_without_interval")
   ELSE IF e.data # s.payload THEN MFail(s, "C16.ping_payload")
   ELSE IF c.ending # "none" /\ e.t > c.endT THEN MFail(s, "C16.ping_after_the_connection_ended")
-  ELSE IF c.npings = 0 /\ e.t > c.upT + 2 * s.I THEN MFail(s, "C16.first_ping_late")
-  ELSE IF c.npings > 0 /\ e.t # c.lastPingT + s.I THEN MFail(s, "C16.pings_not_periodic")
+  ELSE IF c.npings = 0 /\ e.t > c.upT + 2 * s.I + 2 * s.jitter THEN MFail(s, "C16.first_ping_late")
+  ELSE IF c.npings > 0 /\ (e.t < c.lastPingT + s.I \/ e.t > c.lastPingT + s.I + s.jitter) THEN MFail(s, "C16.pings_not_periodic")
   ELSE MRes([s EXCEPT !.conns[k].npings = @ + 1, !.conns[k].lastPingT = e.t,
                       !.conns[k].pings = Append(@, [t |-> e.t, pongT |-> -1, lat |-> e.lat])], TRUE, "")
 
@@ -219,7 +222,14 @@ MQuiesce(s, e) ==
   ELSE IF ~e.sock_none THEN MFail(s, "C14.object_keeps_its_socket")
   ELSE MRes(s, TRUE, "")
 
-MStep(s, e) ==
+LogOf(e) ==
+  CASE e.ev = "cb" -> <<<<e.name, e.t>>>>
+    [] e.ev = "dial" -> <<<<"dial", e.outcome, e.t>>>>
+    [] e.ev = "run_ret" -> <<<<"ret", e.value>>>>
+    [] e.ev = "run_raise" -> <<<<"raise", e.cls>>>>
+    [] OTHER -> <<>>
+
+MStep0(s, e) ==
   CASE e.ev = "run_begin" -> MBegin(s, e)
     [] e.ev = "dial" -> MDial(s, e)
     [] e.ev = "srv" -> MSrv(s, e)
@@ -236,4 +246,6 @@ MStep(s, e) ==
     [] e.ev = "run_raise" -> MRunRaise(s, e)
     [] e.ev = "quiesce" -> MQuiesce(s, e)
     [] OTHER -> MFail(s, "harness.unknown_event")
+
+MStep(s, e) == LET r == MStep0(s, e) IN IF r.ok THEN [r EXCEPT !.s.log = @ \o LogOf(e)] ELSE r
 =============================================================================
